@@ -25,10 +25,22 @@ def solver_tasks(r, n, exhaustive=False):
         for _ in range(n):
             nd = int(r.choice([2, 2, 3]))
             combos.append((nd, G.shape(r, nd, 1, 5 if nd == 2 else 4), None))
+    # far-boundary sources on a long axis (the `zsa >= nz` edge handling rounds differently for n >= 17)
+    for nd in (2, 3):
+        for n in (17, 24, 33):
+            for ax in range(nd):
+                sh = [1] * nd
+                sh[ax] = n
+                combos.append((nd, tuple(sh), "far%d" % ax))
     for nd, sh, cls in combos:
         d = G.spacing(r, nd)
         v, kind = G.medium(r, sh)
-        src, cls = G.source_grid_rel(r, sh, d, cls)
+        if cls is not None and cls.startswith("far") and cls[3:].isdigit():
+            ax = int(cls[3:])
+            d = tuple([1.0] * nd)
+            src = tuple(float(sh[a]) if a == ax else 0.5 for a in range(nd))
+        else:
+            src, cls = G.source_grid_rel(r, sh, d, cls)
         t = {"op": f"fteik{nd}d", "slow": 1.0 / v, "dz": d[0], "dx": d[1], "zs": src[0], "xs": src[1],
              "nsweep": int(r.integers(1, 3)), "grad": int(r.integers(0, 2)),
              "meta": {"shape": sh, "d": d, "medium": kind, "src": src, "cls": cls}}
@@ -175,6 +187,33 @@ def run(tier):
     ck.cov["runtime_sites_with_obligation"] = len([s for s in seen_sites if s in known])
     for s in sorted(unknown_sites)[:10]:
         ck.tie_broken("extract", "runtime access without an extracted site", str(s))
+    # ---- API level (interpreter mode; numpy raises IndexError on out-of-range): default max_step / stepsize paths
+    api = []
+    for _ in range(12 if nq else 80):
+        nd = int(r.choice([2, 3]))
+        sh = G.shape(r, nd, 1, 5 if nd == 2 else 3)
+        d = G.spacing(r, nd, max_aspect=2.0)
+        o = G.origin(r, nd)
+        ext = [sh[a] * d[a] for a in range(nd)]
+        src = [o[a] + float(r.uniform(0, 1)) * ext[a] for a in range(nd)]
+        pts = [[o[a] + float(r.choice([0.0, 1.0, r.uniform(0, 1)])) * ext[a] for a in range(nd)] for _ in range(3)]
+        kw = {"honor_grid": bool(r.integers(0, 2))}
+        kind = str(r.choice(["default", "huge_step", "tiny_budget", "step"]))
+        if kind == "huge_step":
+            kw = {"stepsize": float(r.choice([3.0, 10.0, 1e3])) * max(ext), "honor_grid": False}
+        elif kind == "tiny_budget":
+            kw["max_step"] = int(r.choice([1, 2, 3]))
+        elif kind == "step":
+            kw["stepsize"] = float(r.choice([0.3, 1.0, 2.5])) * min(d)
+        api.append({"op": "api_solve", "grid": np.full(sh, 2.0), "gridsize": d, "origin": o, "sources": src, "grad": True,
+                    "ray_points": pts, "ray_kw": kw, "timeout": 30.0, "meta": {"shape": sh, "kind": kind, "kw": kw}})
+    res = C.run_impl(api, "interp", timeout=3000)
+    for t, o in zip(api, res):
+        ck.count(1, sig=("api", t["meta"]["shape"], t["meta"]["kind"], t["meta"]["kw"].get("honor_grid")))
+        bad = o["status"] == "IndexError" or any(isinstance(x, str) and "IndexError" in x for x in o.get("rays", []))
+        if bad:
+            ck.violation("IndexError (out-of-bounds access) through the public API",
+                         {"kernel": "api_solve", "case": _enc(t), "status": o["status"], "rays": [x for x in o.get("rays", []) if isinstance(x, str)]})
     # ---- compiled build with bounds checking (thorough tier)
     if not nq:
         plain = [dict(t, timeout=20.0) for t in inner]
